@@ -33,7 +33,22 @@ def _assigned_locals(stmts):
   return out
 
 
-def install(policy, func, ordinal, inv, havoc=None, havoc_fields=(), name=None):
+def _heap_stores(stmts):
+  """(kind, name) of every attribute / subscript store in the statements."""
+  out = []
+  for s in stmts:
+    for n in ast.walk(s):
+      if isinstance(n, ast.Attribute) and isinstance(n.ctx, (ast.Store, ast.Del)):
+        out.append(('attr', n.attr))
+      elif isinstance(n, ast.Subscript) and isinstance(n.ctx, (ast.Store, ast.Del)):
+        base = n.value
+        out.append(('item', base.id if isinstance(base, ast.Name) else ast.dump(base)[:40]))
+  return out
+
+
+def install(policy, func, ordinal, inv, havoc=None, havoc_fields=(), name=None, body_check=None):
+  """`body_check(interp, frame, events_of_this_iteration) -> bool | z3 Bool`
+  is an extra obligation (LOOP-BODY) on the arbitrary iteration."""
   havoc = havoc or {}
   label = name or f'loop{ordinal}'
 
@@ -64,6 +79,12 @@ def install(policy, func, ordinal, inv, havoc=None, havoc_fields=(), name=None):
     live = {m for m in missing if m in frame.locals}
     if live:
       raise I.Unsupported(f'loop contract of {func}.{label} does not list assigned locals {sorted(live)}')
+    declared_fields = {f for _, f, _ in havoc_fields}
+    for kind, nm in _heap_stores(s.body):
+      if kind == 'attr' and nm not in declared_fields:
+        raise I.Unsupported(f'loop contract of {func}.{label} does not list the field write .{nm}')
+      if kind == 'item' and nm not in havoc:
+        raise I.Unsupported(f'loop contract of {func}.{label} does not list the container write {nm}[...]')
 
     def inv_at(iz):
       env = dict(frame.locals)
@@ -92,16 +113,22 @@ def install(policy, func, ordinal, inv, havoc=None, havoc_fields=(), name=None):
       g = inv_at(i)
       path.assume(g if not isinstance(g, bool) else g)
       if is_for:
-        interp.assign(s.target, seq.item(interp, i), frame)
+        item = seq.item(interp, i)
+        frame.locals['__pyvc_item__'] = item
+        interp.assign(s.target, item, frame)
       else:
         if not interp.truth(interp.eval(s.test, frame)):
           raise I.Infeasible()
+      mark = len(path.events)
       try:
         interp.exec_block(s.body, frame)
       except I._Continue:
         pass
       except I._Break:
         return
+      if body_check is not None:
+        r = body_check(interp, frame, path.events[mark:])
+        ex.check_goal(path, ob('LOOP-BODY'), r.z if hasattr(r, 'z') else r)
       ex.check_goal(path, ob('INV-step'), inv_at(i + 1))
       raise I.PathEnd()
     do_havoc('end')
